@@ -49,20 +49,29 @@ def run_job(job, env_extra=None):
     env.pop('PYTHONPATH', None)
     if env_extra:
         env.update(env_extra)
-    wall = job.get('budget', 60) * 2 + job.get('twin_budget', 30) + 60
+    # CrossHair's own deadline is CPU time; the wall limit only guards against a hang (e.g. a concrete
+    # computation that does not terminate) and is generous so that a loaded machine cannot trip it.
+    wall = job.get('budget', 60) * 4 + job.get('twin_budget', 30) + 180
     t = time.time()
-    try:
-        p = subprocess.run([PY_CH, '-m', 'vp.job'], cwd=ROOT, env=env, capture_output=True, text=True, timeout=wall)
-        outtxt = p.stdout
-    except subprocess.TimeoutExpired as e:
-        return {'status': 'ENGINE_ERROR', 'message': 'job exceeded wall limit %ds' % wall, 'name': job['name'], 'wall_s': time.time() - t}
-    for line in reversed(outtxt.splitlines()):
-        if line.startswith('VPJOB '):
-            r = json.loads(line[6:])
-            r['name'] = job['name']
-            return r
-    return {'status': 'ENGINE_ERROR', 'name': job['name'], 'wall_s': time.time() - t,
-            'message': 'no result line; rc=%s stderr tail: %s' % (p.returncode, p.stderr[-800:])}
+    last = None
+    for attempt in (1, 2):
+        try:
+            p = subprocess.run([PY_CH, '-m', 'vp.job'], cwd=ROOT, env=env, capture_output=True, text=True, timeout=wall)
+        except subprocess.TimeoutExpired as e:
+            return {'status': 'INCONCLUSIVE', 'message': 'job exceeded the wall limit of %ds (hang guard); no verdict' % wall, 'name': job['name'],
+                    'wall_s': time.time() - t, 'paths': 0, 'solver_checks': 0, 'solver_s': 0}
+        for line in reversed(p.stdout.splitlines()):
+            if line.startswith('VPJOB '):
+                r = json.loads(line[6:])
+                r['name'] = job['name']
+                if r.get('status') == 'ENGINE_ERROR' and attempt == 1:
+                    last = r
+                    break                 # one retry: engine hiccups (e.g. a nondeterminism report) must not look like a broken check
+                return r
+        else:
+            last = {'status': 'ENGINE_ERROR', 'name': job['name'], 'wall_s': time.time() - t,
+                    'message': 'no result line; rc=%s stderr tail: %s' % (p.returncode, p.stderr[-800:])}
+    return last
 
 
 def run_replays(items):
